@@ -359,6 +359,23 @@ func c19Helpers(c *Ctx) {
 							keepIn := w.under(assumeAtom(in, true))
 							_, mx2, _ := countSites(blockStart(loop.Body), func(b *ssa.BasicBlock, i int) bool { return keepIn(b, i) && b != loop.Header }, isInstr(ac.In))
 							good = mn == 1 && mx == 1 && mx2 == 0 && len(loop.earlyExits()) == 0
+							// the difference is built in storage of its own: addressResolved computes two differences from the
+							// same two sets one after the other, and keeps the resolved one
+							for _, leaf := range phiLeaves(ac.In.Common().Args[0]) {
+								if leaf == ssa.Value(ac.In.(*ssa.Call)) || isNilConst(leaf) {
+									continue
+								}
+								if _, isMk := leaf.(*ssa.MakeSlice); isMk {
+									continue
+								}
+								if sl, isSl := leaf.(*ssa.Slice); isSl {
+									if _, isAl := sl.X.(*ssa.Alloc); isAl { // make with a constant size: a view of a new array
+										continue
+									}
+								}
+								good = false
+								c.bad(rule, "strArraySub/own-storage", w.ipos(ac.In), "the difference is accumulated in "+w.termKey(leaf)+" and not in a list of its own (make / nil): building it on the storage of an operand overwrites that operand while it is still needed - the second difference of addressResolved is then computed from a clobbered set and a kept address is reported as removed")
+							}
 						}
 					}
 				}
